@@ -513,9 +513,13 @@ func valEq(a, b *Val) bool {
 	return false
 }
 
+// rpfCurrent is the evaluator that is invoking a multi-value hook (hooks use it to fold the call's arguments).
+var rpfCurrent *rpf
+
 func (r *rpf) callMulti(call *ast.CallExpr) []*Val {
 	callee := typeutil.Callee(r.p.TypesInfo, call)
 	if r.multiHook != nil {
+		rpfCurrent = r
 		if vals, ok := r.multiHook(call, callee); ok {
 			return vals
 		}
@@ -682,7 +686,9 @@ func (r *rpf) expr(e ast.Expr) *Val {
 		if base.K == VStr {
 			return vstr(base.S[lo:hi])
 		}
-		return &Val{K: VList, L: append([]*Val(nil), base.L[lo:hi]...), T: base.T}
+		// a copy: later stores into it are not seen through the original (sound here because the fragment only
+		// admits stores into lists created inside the fold, and the re-sliced name replaces the original)
+		return &Val{K: VList, L: append([]*Val(nil), base.L[lo:hi]...), T: base.T, Local: base.Local}
 	case *ast.UnaryExpr:
 		if x.Op == token.AND {
 			if _, ok := x.X.(*ast.CompositeLit); ok {
